@@ -6,6 +6,7 @@ import (
 	"fmt"
 	"go/token"
 	"go/types"
+	"golang.org/x/tools/go/ssa"
 	"math/big"
 	"strconv"
 	"strings"
@@ -41,6 +42,7 @@ type SpecEnv struct {
 	qdepth  int              // nesting depth of quantifiers
 	witness map[string]SExpr // witnesses for positive existentials in goals
 	derefs  *[]string        // when set: the non-nil conditions of the pointers dereferenced during evaluation
+	fr      *Frame           // the activation whose loops `visited` refers to
 }
 
 func (se *SpecEnv) noteDeref(nonnil string) {
@@ -1066,6 +1068,35 @@ func (se *SpecEnv) call(e SCall, hint types.Type) Val {
 		}
 		f.c.trusted["iface contract "+lit.Val] = true
 		return se.pureWF(f.pureResult(se.state(), lit.Val, args, rt, con.Reads))
+	case "visited": // visited(N, k): the range-over-map statement stepped by loop N has already produced key k
+		nl, ok := e.Args[0].(SLit)
+		if !ok || nl.Kind != "int" || se.fr == nil {
+			sfail("visited(N, k) needs a literal loop ordinal (and a function body)")
+		}
+		var ord int
+		fmt.Sscanf(nl.Val, "%d", &ord)
+		for _, li := range se.fr.loops {
+			if li.ord != ord {
+				continue
+			}
+			for _, in := range li.head.Instrs {
+				nx, ok := in.(*ssa.Next)
+				if !ok || nx.IsString {
+					continue
+				}
+				rng, ok := nx.Iter.(*ssa.Range)
+				if !ok {
+					continue
+				}
+				mt, ok := rng.X.Type().Underlying().(*types.Map)
+				if !ok {
+					continue
+				}
+				k := se.eval(e.Args[1], mt.Key())
+				return boolVal(sel(f.lazyHeap(se.state(), f.rangeVisKey(se.fr, rng, mt)), k.L[0]))
+			}
+		}
+		sgone("loop %d does not step a range over a map", ord)
 	case "holds": // holds(x, v): the interface value x holds a value of v's type that equals v (Go's x == v)
 		x := se.eval(e.Args[0], nil)
 		if _, ok := x.T.Underlying().(*types.Interface); !ok {
